@@ -655,6 +655,16 @@ pub fn c08_concurrent_programs() -> Vec<Arc<Prog>> {
         q.fs_switch = true;
         v.push(Arc::new(q));
     }
+    // a manual compaction is in flight when a writer's WAL append fails (the background error is
+    // recorded and the thread waiting in compact_range is woken while the compaction thread works)
+    v.push(pt(
+        "wal-write-of-T2-fails once: compact||w",
+        l0.clone(),
+        vec![vec![Compact(None, None)], vec![Put(0, 7, 8)]],
+        (class::WRITE, ".log"),
+        Some(1),
+        Some(1),
+    ));
     for (tag, budget) in [("once", Some(1u32)), ("sticky", None)] {
         let n = |s: &str| format!("{} {}", s, tag);
         v.push(p(&n("wal-write-fails: w||w||get+get"), vec![Put(0, 1, 8)], vec![vec![Put(0, 2, 8)], vec![Put(0, 3, 8)], vec![Get(0), Get(0)]], (class::WRITE, ".log"), budget));
@@ -778,6 +788,8 @@ pub fn c09_fault_programs() -> Vec<Arc<Prog>> {
     ]
     .into_iter()
     .chain(l0_stop_programs())
+    // a background error recorded while a manual compaction is in flight (found H15)
+    .chain(c08_concurrent_programs().into_iter().filter(|p| p.name.contains("compact||w") || p.name.contains("rotating w+w+w||compact")))
     .collect()
 }
 
